@@ -529,17 +529,18 @@ def path_conditions(fi: FuncInfo, node: ast.AST) -> list[tuple[ast.AST, bool]]:
             elif isinstance(st, ast.For) and any(x is node for x in ast.walk(st.iter)):
                 expr_conditions(st.iter)
     norm: list[tuple[ast.AST, bool]] = []
-    for test, pol in out:
+
+    def spread(test: ast.AST, pol: bool) -> None:
         while isinstance(test, ast.UnaryOp) and isinstance(test.op, ast.Not):
             test, pol = test.operand, not pol
         # a conjunction known to be true gives each conjunct; a disjunction known to be false gives each negated disjunct
+        # (at any depth: `a and (b and not (c or d))`)
         if isinstance(test, ast.BoolOp) and ((isinstance(test.op, ast.And) and pol) or (isinstance(test.op, ast.Or) and not pol)):
             for v in test.values:
-                vp = pol
-                while isinstance(v, ast.UnaryOp) and isinstance(v.op, ast.Not):
-                    v, vp = v.operand, not vp
-                norm.append((v, vp))
+                spread(v, pol)
         norm.append((test, pol))
+    for test, pol in out:
+        spread(test, pol)
     return norm
 
 
@@ -881,7 +882,7 @@ def on_cells_only(ctx, fi, flow, ravel_call, rule: str, what: str, conv: str = '
 
 # --------------------------------------------------------------------------- facts on a path
 
-def facts(ctx: Context, fi: FuncInfo, node: ast.AST) -> set[tuple[str, bool]]:
+def facts(ctx: Context, fi: FuncInfo, node: ast.AST, expand: bool = True) -> set[tuple[str, bool]]:
     """The atomic conditions known to hold (True) or not to hold (False) on every path to `node`, as text:
     comparisons in their positive form, conjunctions / disjunctions taken apart, locals that stand for one
     expression spelled out.  `if a and not b:` / `if not a: return` + `if b: return` / `x if a and not b else y`
@@ -900,7 +901,7 @@ def facts(ctx: Context, fi: FuncInfo, node: ast.AST) -> set[tuple[str, bool]]:
             ast.copy_location(t2, t)
             t, pol = t2, not pol
         try:
-            e = expand_locals(flow, t)
+            e = expand_locals(flow, t) if expand else t
         except Exception:
             e = t
         return norm_text(e), pol
@@ -927,6 +928,17 @@ def facts(ctx: Context, fi: FuncInfo, node: ast.AST) -> set[tuple[str, bool]]:
             out.add(lit)
     for t, pol in path_conditions(fi, node):
         add(t, pol)
+    # inside `for x in (SEQ if c else ())` the condition c holds (the loop body does not run otherwise)
+    for lp in walk_no_nested(fi.node):
+        if isinstance(lp, ast.For) and any(x is node for b in lp.body for x in ast.walk(b)):
+            it = flow.resolve(lp.iter)
+            if isinstance(it, ast.IfExp):
+                def empty(e):
+                    return isinstance(e, (ast.Tuple, ast.List, ast.Set)) and not e.elts or (isinstance(e, ast.Dict) and not e.keys)
+                if empty(it.orelse) and not empty(it.body):
+                    add(it.test, True)
+                elif empty(it.body) and not empty(it.orelse):
+                    add(it.test, False)
     # unit resolution: a clause all of whose literals but one are known to fail gives the last one
     changed = True
     while changed:
